@@ -259,7 +259,7 @@ API_ATTACKS = [
 
 
 def run(ctx):
-    ctx.level = 'model_checking'
+    ctx.level = 'other'
     wl = WITNESS_LEN[ctx.tier]
     pats = dict(rxlive.live_patterns())
     # document-side patterns inside compiled IR (one per attribute operator)
